@@ -21,6 +21,8 @@ func runC15(p *Program, r *Result) {
 	r.Rule("R15.6", "deferred closures do not overwrite the error being returned (a failed final flush/close must surface)", 0)
 	checkDeferredOverwrite(p, r, []string{pkgCmdAge, pkgKeygen})
 	checkCLIFiles(p, r)
+	r.Rule("R15.8", "an error that is looked at is looked at on every path to a return: a failure found is not passed over (= R13.8 for the CLI packages)", 1)
+	checkErrorsExaminedOnEveryPath(p, r, []string{pkgCmdAge, pkgKeygen})
 	r.Rule("R15.7", "the plaintext is taken from the decrypting reader only by copiers for which nothing but io.EOF is a clean end", 1)
 	checkPlaintextConsumers(p, r)
 }
